@@ -389,6 +389,66 @@ def addArgument (cfg : Cfg) (st : State) (name : Option (List Char)) (a : Arg) :
 
 /-! ### `Field.__init__` -/
 
+/-- `ftype = fmatch.group('type')` and the `if ftype is None … elif … else: raise Error(s)` chain -/
+def tpType (f : Spec) : Except ErrClass TySet :=
+  match f.type with
+  | none => .ok TySet.all
+  | some t =>
+    if t == 's' then .ok ⟨true, false, false⟩
+    else if "bcdoxX".toList.contains t then .ok ⟨false, true, false⟩
+    else if "eEfFgG%".toList.contains t then .ok ⟨false, false, true⟩
+    else if t == 'n' then (if f.comma then .error .FormatError else .ok ⟨false, true, true⟩)
+    else .error .Error
+
+/-- `{'int', 'float'}` -/
+def TySet.numeric : TySet := ⟨false, true, true⟩
+
+/-- `if alt or sign or comma: tp &= {'int', 'float'}; if not tp: raise FormatError(s)` -/
+def tpFlags (f : Spec) (tp : TySet) : Except ErrClass TySet :=
+  let tp1 := if f.alt || f.sign.isSome || f.comma then tp.inter TySet.numeric else tp
+  if tp1.isEmpty then .error .FormatError else .ok tp1
+
+/-- `align`, `zero`: `if (align is None) and (zero is not None): align = '='`; `if align == '=': tp &= {'int', 'float'} …` -/
+def tpAlign (f : Spec) (tp : TySet) : Except ErrClass TySet :=
+  let align := if f.align.isNone && f.zero then some '=' else f.align
+  let tp2 := if align == some '=' then tp.inter TySet.numeric else tp
+  if tp2.isEmpty then .error .FormatError else .ok tp2
+
+/-- `width = int(width); if width > SSIZE_MAX: raise FormatError(s)` -/
+def checkWidth (cfg : Cfg) (f : Spec) : Except (ErrClass ⊕ Py.Exc) Unit :=
+  match f.width with
+  | none => .ok ()
+  | some ds =>
+    match pyInt cfg ds with
+    | .error e => .error (.inr e)
+    | .ok n => if n > cfg.ssizeMax then .error (.inl .FormatError) else .ok ()
+
+/-- `if precision is not None: tp &= {'float', 'str'}; …; precision = int(precision); if precision > SSIZE_MAX: …` -/
+def tpPrec (cfg : Cfg) (f : Spec) (tp : TySet) : Except (ErrClass ⊕ Py.Exc) TySet :=
+  match f.precision with
+  | none => .ok tp
+  | some ds =>
+    let tp3 := tp.inter ⟨true, false, true⟩
+    if tp3.isEmpty then .error (.inl .FormatError) else
+    match pyInt cfg ds with
+    | .error e => .error (.inr e)
+    | .ok n => if n > cfg.ssizeMax then .error (.inl .FormatError) else .ok tp3
+
+/-- the typing rules of `Field.__init__` on a matched specification, in source order -/
+def specCheck (cfg : Cfg) (f : Spec) : Except (ErrClass ⊕ Py.Exc) TySet :=
+  match tpType f with
+  | .error c => .error (.inl c)
+  | .ok tp =>
+    match tpFlags f tp with
+    | .error c => .error (.inl c)
+    | .ok tp1 =>
+      match tpAlign f tp1 with
+      | .error c => .error (.inl c)
+      | .ok tp2 =>
+        match checkWidth cfg f with
+        | .error e => .error e
+        | .ok () => tpPrec cfg f tp2
+
 /-- the `else:` branch of `Field.__init__` (a format specification without nested fields): the type set, or the error class.
     `fmt` is the group `format`, with its leading `:`. -/
 def specTypes (cfg : Cfg) (fmt : List Char) : Except (ErrClass ⊕ Py.Exc) TySet :=
@@ -396,48 +456,7 @@ def specTypes (cfg : Cfg) (fmt : List Char) : Except (ErrClass ⊕ Py.Exc) TySet
   | ':' :: spec =>
     match scanSpec spec with
     | none => .error (.inl .FormatError)
-    | some f =>
-      -- ftype
-      let tp0 : Except (ErrClass ⊕ Py.Exc) TySet :=
-        match f.type with
-        | none => .ok TySet.all
-        | some t =>
-          if t == 's' then .ok ⟨true, false, false⟩
-          else if "bcdoxX".toList.contains t then .ok ⟨false, true, false⟩
-          else if "eEfFgG%".toList.contains t then .ok ⟨false, false, true⟩
-          else if t == 'n' then (if f.comma then .error (.inl .FormatError) else .ok ⟨false, true, true⟩)
-          else .error (.inl .Error)
-      match tp0 with
-      | .error e => .error e
-      | .ok tp =>
-        -- alt / sign / comma
-        let numeric : TySet := ⟨false, true, true⟩
-        let tp1 := if f.alt || f.sign.isSome || f.comma then tp.inter numeric else tp
-        if tp1.isEmpty then .error (.inl .FormatError) else
-        -- align / zero
-        let align := if f.align.isNone && f.zero then some '=' else f.align
-        let tp2 := if align == some '=' then tp1.inter numeric else tp1
-        if tp2.isEmpty then .error (.inl .FormatError) else
-        -- width
-        let w : Except (ErrClass ⊕ Py.Exc) Unit :=
-          match f.width with
-          | none => .ok ()
-          | some ds =>
-            match pyInt cfg ds with
-            | .error e => .error (.inr e)
-            | .ok n => if n > cfg.ssizeMax then .error (.inl .FormatError) else .ok ()
-        match w with
-        | .error e => .error e
-        | .ok () =>
-          -- precision
-          match f.precision with
-          | none => .ok tp2
-          | some ds =>
-            let tp3 := tp2.inter ⟨true, false, true⟩
-            if tp3.isEmpty then .error (.inl .FormatError) else
-            match pyInt cfg ds with
-            | .error e => .error (.inr e)
-            | .ok n => if n > cfg.ssizeMax then .error (.inl .FormatError) else .ok tp3
+    | some f => specCheck cfg f
   | _ => .error (.inr .AssertionError)     -- `assert fmt[0] == ':'`
 
 /-- is the format specification one with nested fields (`'{' in fmt`)? -/
